@@ -5,7 +5,7 @@
 mod trace_macro;
 // the trace machinery, instantiated for several key / value / hasher types (needs_drop, the default hasher and the
 // hasher-less constructors are type-level facts a single instantiation cannot vary)
-trace_mod!(trace, VKey, VVal, LruCache<VKey, VVal, BH>, |max: usize, cap: usize, hk: u8| LruCache::with_capacity_and_hasher(max, cap, BH(hk)), "dd");
+trace_mod!(trace, VKey, VVal, LruCache<VKey, VVal, BH>, |max: usize, cap: usize, hk: u8| if cap == 0 && hk % 2 == 0 { LruCache::with_hasher(max, BH(hk)) } else { LruCache::with_capacity_and_hasher(max, cap, BH(hk)) }, "dd");
 trace_mod!(trace_pd, PKey, VVal, LruCache<PKey, VVal, BH>, |max: usize, cap: usize, hk: u8| LruCache::with_capacity_and_hasher(max, cap, BH(hk)), "pd");
 trace_mod!(trace_dp, VKey, PVal, LruCache<VKey, PVal, BH>, |max: usize, cap: usize, hk: u8| LruCache::with_capacity_and_hasher(max, cap, BH(hk)), "dp");
 trace_mod!(trace_df, VKey, VVal, LruCache<VKey, VVal>, |max: usize, cap: usize, _hk: u8| if cap == 0 { LruCache::new(max) } else { LruCache::with_capacity(max, cap) }, "df");
